@@ -345,7 +345,7 @@ class CallMixin:
             a = norm(lo) if lo is not None else z3.IntVal(0)
             b = norm(hi) if hi is not None else n
             r = f(obj.t, a, b)
-            j = z3.Int("j")
+            j = self.bv("sj", z3.IntSort())
             st.facts.append(v.slen(r) == z3.If(b - a < 0, 0, b - a))
             st.facts.append(z3.ForAll([j], z3.Implies(z3.And(0 <= j, j < v.slen(r)), v.sat(r, j) == v.sat(obj.t, a + j)), patterns=[v.sat(r, j)]))
             st.facts.append(v.ty(r) == v.ty(obj.t))
@@ -415,7 +415,7 @@ class CallMixin:
             cache[ckey] = (R, seq.t, cval, ccond)      # the ASTs are kept alive so that their ids stay unique
         else:
             R = hit[0]
-        j = z3.Int("j")
+        j = self.bv("cj", z3.IntSort())
         sub = lambda f: z3.substitute(f, (e, v.sat(seq.t, j)), (j0, j))
         st.facts.append(v.ty(R) == v.cls["list"])
         rpt = val.pt if val.pt in NATIVE else "any"
@@ -427,7 +427,7 @@ class CallMixin:
             self.comp_info[R.get_id()] = ("map", seq, e, j0, val, cond, body_facts)
         else:
             # filtered: membership characterisation + length bound (order preserved but not needed so far)
-            x = z3.Const("x", v.Val)
+            x = self.bv("cx")
             wit = v.fn(f"compwit!{R}", v.Val, z3.IntSort())
             st.facts.append(v.slen(R) <= v.slen(seq.t))
             st.facts.append(z3.ForAll([j], z3.Implies(z3.And(0 <= j, j < v.slen(seq.t), sub(cond)),
